@@ -6,12 +6,12 @@ from hypothesis import given, seed as hseed, strategies as st
 
 from .. import core, pspace
 from ..msref import wire, replies as R
-from ..msref.transport import Session, ScriptedPeer
+from ..msref.transport import Session, ScriptedPeer, FakeSocket
 
 PROP = "C05"
 MOD = __name__
 
-RULE = ("every operation (connect, capability, listscripts, getscript, putscript, checkscript, deletescript, renamescript native "
+RULE = ("every operation (connect, connect again on the same Client after a refused login that may be followed by BYE, capability, listscripts, getscript, putscript, checkscript, deletescript, renamescript native "
         "and emulated, setactive, havespace) x Hypothesis reply from the RFC 5804 reply grammar (quoted/literal strings, response "
         "codes, listings, bodies with CRLF-rich and protocol-look-alike content, NO with literal text) x schedules: every single "
         "cut, every pair of cuts for replies <= 48 bytes (exhaustive), recv capped at 1/2/3/7/64 bytes, Hypothesis k-way splits; "
@@ -57,6 +57,18 @@ def observe(op, stream_replies, greeting, schedule, cap, emulated=False):
         peer = ScriptedPeer(greeting, stream_replies + [SENT1, SENT2])
         s = Session(peer, schedule=schedule, cap=cap)
         res = s.call("connect", "user", "pass")
+    elif op == "reconnect":
+        # a refused login (possibly followed by BYE), segmented; then the same Client
+        # connects again over a new connection to a server that lets it in
+        peer = ScriptedPeer(greeting, stream_replies)
+        s = Session(peer, schedule=schedule, cap=cap)
+        first = s.call("connect", "user", "pass")
+        peer2 = ScriptedPeer(R.GREETING, [R.AUTH_OK, SENT1, SENT2])
+        s.peer = peer2
+        s.sock = FakeSocket(peer2)
+        res = (first, s.call("connect", "user", "pass"))
+        if res[1][0] == "exc":
+            res = ("exc", res)
     else:
         peer = ScriptedPeer(greeting, [R.AUTH_OK] + stream_replies + [SENT1, SENT2])
         s = Session(peer)
@@ -121,7 +133,7 @@ def nontrivial(stream, schedule, cap):
 
 
 def check(op, stream_replies, greeting, emulated, col, data=None, expected=None):
-    stream = b"".join(stream_replies) if op != "connect" else greeting + b"".join(stream_replies)
+    stream = b"".join(stream_replies) if op not in ("connect", "reconnect") else greeting + b"".join(stream_replies)
     base = observe(op, stream_replies, greeting, [], None, emulated)
     # exact consumption in the reference run
     fails = []
@@ -178,8 +190,13 @@ def worker(arg):
     @hseed(sd)
     @given(st.data())
     def body(data):
-        op = data.draw(st.sampled_from(R.OPS + ["connect", "emulated-rename"]))
-        if op == "connect":
+        op = data.draw(st.sampled_from(R.OPS + ["connect", "emulated-rename", "reconnect"]))
+        if op == "reconnect":
+            first = data.draw(R.status((b"NO", b"BYE")))["bytes"]
+            if data.draw(st.booleans()):
+                first += data.draw(R.status((b"BYE",)))["bytes"]
+            check("reconnect", [first], R.GREETING, False, col, data)
+        elif op == "connect":
             auth = data.draw(R.status((b"OK", b"NO")))
             check("connect", [auth["bytes"]], R.GREETING, False, col, data)
         elif op == "emulated-rename":
@@ -253,7 +270,7 @@ def replay(case):
     obs = observe(op, case["replies"], case["greeting"], case["schedule"], case["cap"], case["emulated"])
     out = []
     label = "emulated-rename" if case["emulated"] else op
-    stream = b"".join(case["replies"]) if op != "connect" else case["greeting"] + b"".join(case["replies"])
+    stream = b"".join(case["replies"]) if op not in ("connect", "reconnect") else case["greeting"] + b"".join(case["replies"])
     if base["result"][0] != "exc" and base["unread_after_op"]:
         out.append(("reply-not-consumed-exactly|%s|single-chunk" % label, {"unread": base["unread_after_op"]}))
     if obs != base:
@@ -274,7 +291,7 @@ def replay(case):
 def main(tier, seed, t0):
     quick = tier == "quick"
     col = core.run_shards(worker, [(seed * 1000 + 1500 + k, 60 if quick else 800) for k in range(16)])
-    need = ["op:" + o for o in R.OPS] + ["op:connect", "op:emulated-rename", "sched:cut1", "sched:cut2", "sched:cap", "sched:kway", "sched:read-size-boundary"]
+    need = ["op:" + o for o in R.OPS] + ["op:connect", "op:reconnect", "op:emulated-rename", "sched:cut1", "sched:cut2", "sched:cap", "sched:kway", "sched:read-size-boundary"]
     missing = [c for c in need if not col.classes.get(c)]
     if missing:
         raise core.HarnessError("generator classes empty: %s" % missing)
